@@ -424,6 +424,21 @@ def DictOKL : List Node → Prop
   | k :: ks => DictOK k ∧ DictOKL ks
 end
 
+mutual
+/-- number of nodes of a tree -/
+def sizeN : Node → Nat
+  | .str _ _ _ => 1
+  | .tag _ _ ks => 1 + sizeL ks
+def sizeL : List Node → Nat
+  | [] => 0
+  | k :: ks => sizeN k + sizeL ks
+end
+
+/-- `Below a x`: the node `x` occurs strictly below the tag `a` -/
+inductive Below : Node → Node → Prop
+  | kid {i d ks k} : k ∈ ks → Below (.tag i d ks) k
+  | deeper {i d ks k x} : k ∈ ks → Below k x → Below (.tag i d ks) x
+
 /-! ### `hash` -/
 
 /-- `Tag.__hash__`: `str(self).__hash__()` = `hash(self.decode())`, for any renderer that reads the tree through its
